@@ -52,8 +52,11 @@ OPWORD = {'plus': 'plus', 'subtract': 'minus', 'multiply': 'multiply', 'divide':
 
 
 def big_repeat(a, b):
-    """string x huge number: stays out of the square (allocation), the model answers `resource`"""
-    return a.startswith('s') and b in (progs.nenc(1e300), progs.nenc(progs.INF))
+    """string x large number: stays out of the programs (allocation), the model answers `resource`"""
+    if not (a.startswith('s') and b.startswith('#')):
+        return False
+    x = struct.unpack('<d', struct.pack('<Q', int(b[1:], 16)))[0]
+    return x >= 1e6
 
 
 # ----------------------------------------------------------------------------- C03
@@ -71,7 +74,7 @@ def c03(run):
     for a in U:
         for b in U:
             for op in BINOPS_VAL:
-                if op == 'multiply' and big_repeat(a, b):
+                if op == 'multiply' and (big_repeat(a, b) or big_repeat(b, a)):
                     continue
                 reqs.append('val %s %s %s' % (op, a, b))
                 meta.append((op, a, b))
@@ -373,7 +376,7 @@ def law_program(rng, a, b):
     s += alias
     # compound assignment vs expanded form
     op = rng.choice(['plus', 'minus', 'multiply', 'divide'])
-    if not (op == 'multiply' and big_repeat(a, b)):
+    if not (op == 'multiply' and (big_repeat(a, b) or big_repeat(b, a))):
         Y, Z = sv('yy'), sv('zz')
         s += [put(v(A), Y), put(v(A), Z), let(Y, op, v(B)), let(Z, None, bin_(op, v(Z), v(B))),
               say(st('compound')), say(v(Y)), say(v(Z)), say(('bin', 'eq', v(Y), [v(Z)], 'is'))]
@@ -656,6 +659,35 @@ def sized_programs():
     return out
 
 
+def scale_runs(quick):
+    """(kind, n, program): ONE thing repeated n times, n sweeping powers of two +-1 and 1000: array elements, dictionary keys,
+    loop iterations, recursion depth, string length, nesting of subscript writes, of arrays, of blocks; followed by the
+    operations whose cost or rendering depends on the size (print, join, compare with a copy, roll everything, an error
+    whose message shows the value)"""
+    from . import texts
+    out = []
+    for n in (texts.SWEEP_QUICK if quick else texts.SWEEP):
+        fill = 'rock xs\nput 0 into ii\nwhile ii is less than %d\nrock xs with ii\nbuild ii up\n\n' % n
+        out.append(('array-elements', n, fill + 'say xs\nsay xs at %d\nsay xs at %d\nput xs into ys\nsay xs is ys\nroll xs\nsay xs\nsay ys\ncast xs\n' % (n - 1, n)))
+        keys = 'rock ds\nput 0 into ii\nwhile ii is less than %d\nput "k" with ii into kk\nput ii into ds at kk\nbuild ii up\n\n' % n
+        out.append(('dictionary-keys', n, keys + 'say ds\nsay ds at "k0"\nsay ds at "k%d"\nput ds into es\nsay ds is es\ncast ds\n' % (n - 1)))
+        out.append(('dictionary-keys-and-elements', n, 'put 1 into ds at %d\nput 1 into ds at "alpha"\nput 2 into ds at "beta"\nput 3 into ds at "gamma"\nsay ds\ncast ds\n' % (n - 3)))
+        if n <= 300:
+            out.append(('dictionary-join', n, keys.replace('put ii into ds at kk', 'put "v" with ii into ds at kk') + 'join ds with ","\nsay ds\n'))
+        out.append(('iterations', n, 'put 0 into ii\nwhile ii is less than %d\nbuild ii up\n\nsay ii\n' % n))
+        out.append(('string-length', n, 'put "ab" times %d into ss\ncut ss into cs\nsay cs\njoin cs into ts\nsay ts is ss\nsay ss at %d\nknock ss down\n' % (n, 2 * n - 1)))
+        if n <= 300:
+            out.append(('recursion-depth', n, 'ff takes nn\nif nn is 0\ngive back 0\n\nput nn minus 1 into mm\ngive back 1 with ff taking mm\n\nsay ff taking %d\n' % n))
+            out.append(('array-nesting', n, 'rock xs with 1\nput 0 into ii\nwhile ii is less than %d\nrock ys\nrock ys with xs\nput ys into xs\nput nothing into ys\nbuild ii up\n\nsay xs\nput xs into zs\nsay zs is xs\n' % n))
+    for n in range(1, 14):
+        tgt = 'xs' + ' at 0' * n
+        for st_ in ('let %s be 5', 'put 5 into %s', 'rock %s with 1, 2', 'let %s be with 1', 'listen to %s', 'turn up %s',
+                    'cut "a,b" into %s with ","', 'roll ys into %s', 'roll %s', 'join ws into %s', 'cast "65" into %s'):
+            for pre in ('', 'put 2.5 into %s\n' % tgt, 'rock %s with 3, 4\n' % tgt):
+                out.append(('subscript-depth', n, 'rock ys with 7\nrock ws with "a", "b"\n' + pre + st_ % tgt + '\nsay %s\nsay xs\n' % tgt))
+    return out
+
+
 def c09(run):
     rng = run.rng
     n = run.n(2500, 100000)
@@ -665,7 +697,8 @@ def c09(run):
                 'degenerate poetic literals; control-flow keywords at top level and across blank lines), and mutations of those; '
                 'the model decides which stay within the step/size budget; non-trivial = the program is accepted by the parser; '
                 'distinct by program text' % len(DEGENERATE))
-    cases = [(s, 'catalogue') for s in DEGENERATE] + [(s, 'sized') for s in sized_programs()]
+    cases = [(s, 'catalogue') for s in DEGENERATE] + [(s, 'sized') for s in sized_programs()] + \
+            [(s, 'scale:' + k) for k, _, s in scale_runs(run.tier == 'quick')]
     names = [('simple', 'X'), ('simple', 'F'), ('common', 'the', 'cat'), ('proper', ['Doctor', 'Feelgood'])]
     while len(cases) < n:
         r = rng.random()
@@ -895,13 +928,18 @@ def c10(run):
     n = run.n(250, 10000)
     reps = 6
     run.rule = ('programs building dictionaries with 2-8 non-numeric keys (strings, booleans, null, mysterious; nested) and then joining, '
-                'printing, comparing, copying, or provoking every error whose message embeds a value; each run %d times in one process '
+                'printing, comparing, copying, or provoking every error whose message embeds a value; dictionaries and arrays of 8 ... 1025 '
+                'entries (powers of two +-1, 1000); each run %d times in one process '
                 '(every HashMap gets a fresh hasher seed) and in 3 separate processes, plus `lint` twice; byte-compare stdout, result and message; '
                 'non-trivial = the dictionary has >= 3 keys; distinct by program text' % reps)
     cases = []
     for i in range(n):
         prog = dict_program(rng)
         cases.append((prog, progs.render(rng, prog)))
+    # dictionaries and arrays at sizes sweeping powers of two +-1 and 1000 (printing, comparing, an error whose message shows them)
+    for k, nn, src in scale_runs(run.tier == 'quick'):
+        if k.startswith(('dictionary', 'array-elements')) and nn >= 8:
+            cases.append(([], src))
     reqs = [run_req(src) for _, src in cases]
     m, im = run.tie(reqs, proj=proj_run, functional=True, desc=lambda i: {'program': cases[i][1]})
     # repeated runs: same process (requests repeated back to back) and separate processes
@@ -915,7 +953,7 @@ def c10(run):
     l2 = common.serve([common.harness_bin(), 'serve'], lint_reqs, tag='c10l2')
     for i, (prog, src) in enumerate(cases):
         answers = set(same[i * reps:(i + 1) * reps]) | {p[i] for p in procs} | ({im[i]} if im[i] is not None else set())
-        nkeys = rock.dump_program(prog).count('(lsub ')
+        nkeys = rock.dump_program(prog).count('(lsub ') if prog else 3
         c = run_parts(im[i])[0] if im[i] else '?'
         run.case(src, nkeys >= 3, sample={'program': src[:300], 'answer': (im[i] or '')[:160]} if rng.random() < 0.01 else None,
                  keys=nkeys, outcome=c)
@@ -1140,7 +1178,7 @@ def c05(run):
 SCOPE_PRE = 'put 1 into gg\nput 2 into hh\nhelper takes qq\nput 30 into gg\nput 31 into ll\nput 32 into pp\ngive back qq\n\n'
 SCOPE_BODY = ['put 10 into gg', 'put 11 into ll', 'put 12 into pp', 'say gg', 'say ll', 'say pp', 'say it', 'let gg be with pp',
               'put helper taking 7 into hh', 'say helper taking pp', 'if pp is 5\nput 13 into bb\nsay bb\n', 'if pp is 5\nput 14 into gg\n',
-              'say bb', 'if pp is greater than 0\ngive back ff taking pp minus 5\n', 'while pp is greater than 0\nknock pp down\nput 15 into ww\nif pp is 2\ngive back ww\n\n',
+              'say bb', 'if pp is greater than 0\nput pp minus 5 into qq\ngive back ff taking qq\n', 'while pp is greater than 0\nknock pp down\nput 15 into ww\nif pp is 2\ngive back ww\n\n',
               'say ww', 'give back gg', 'rock gg with pp', 'put pp into ll at 0', 'listen to ll', 'put ff into hh']
 SCOPE_CALL = 'say ff taking 5\n'
 SCOPE_OBS = ['say gg\nsay hh', 'say ll', 'say pp', 'say bb', 'say it', 'say ww', 'say ff taking gg, hh', 'say hh taking 1']
